@@ -166,7 +166,7 @@ func checkC09(p *core.Program, r *core.Report) {
 		r.Violation("O9.1", hu.Name, p.Pos(hu.Node.Pos()), "handler has no named http.ResponseWriter parameter")
 		return
 	}
-	helpers, g := checkStatusOnce(p, r, ix, hu, w, "O9.1")
+	helpers, condHelpers, g := checkStatusOnceX(p, r, ix, hu, w, "O9.1")
 	// ---- O9.2 error table
 	ctors := errorConstructors(p, ix)
 	r.Count("error constructors", len(ctors))
@@ -200,62 +200,75 @@ func checkC09(p *core.Program, r *core.Report) {
 		fn, _ := callee.(*types.Func)
 		return fn != nil && helpers[fn.Origin()]
 	}
-	sites := flow.Analyse(hu, flow.Config{
-		Select: func(call *ast.CallExpr, callee types.Object) bool {
-			return hasErrorResult(info, call) && !isWriterCall(info, call, w)
-		},
-		Sink:         isSink,
-		NoResultFunc: true,
-		GuardedVars: func(s *flow.Site) []*types.Var {
-			// decode destination: json.Unmarshal(buf, &dst)
-			if fn, _ := s.Callee.(*types.Func); fn != nil && fn.FullName() == "encoding/json.Unmarshal" && len(s.Call.Args) == 2 {
-				if v := baseIdentVar(info, s.Call.Args[1]); v != nil {
-					return []*types.Var{v}
-				}
-			}
-			return nil
-		},
-	})
-	ord := map[string]int{}
 	kinds := map[string]int{}
-	for _, s := range sites {
-		if s.Form == "noerror" {
-			continue
-		}
-		k := kindOf(s)
-		cn := siteConstruct(hu, s, ord)
-		if k == "" {
-			// an error source outside the table: must still be handled
+	tableFor := func(tu flow.FuncUnit, tw *types.Var) {
+		tinfo := tu.Pkg.TypesInfo
+		sites := flow.Analyse(tu, flow.Config{
+			Select: func(call *ast.CallExpr, callee types.Object) bool {
+				return hasErrorResult(tinfo, call) && !isWriterCall(tinfo, call, tw)
+			},
+			Sink:         isSink,
+			NoResultFunc: true,
+			GuardedVars: func(s *flow.Site) []*types.Var {
+				// decode destination: json.Unmarshal(buf, &dst)
+				if fn, _ := s.Callee.(*types.Func); fn != nil && fn.FullName() == "encoding/json.Unmarshal" && len(s.Call.Args) == 2 {
+					if v := baseIdentVar(tinfo, s.Call.Args[1]); v != nil {
+						return []*types.Var{v}
+					}
+				}
+				return nil
+			},
+		})
+		ord := map[string]int{}
+		for _, s := range sites {
+			if s.Form == "noerror" {
+				continue
+			}
+			k := kindOf(s)
+			cn := siteConstruct(tu, s, ord)
+			if k == "" {
+				// an error source outside the table: must still be handled
+				if len(s.Findings) > 0 {
+					r.Violation("O9.2", cn, p.Pos(s.Pos), "%s", findingsText(p, s))
+				} else {
+					r.OK("O9.2", cn, p.Pos(s.Pos), "error handled (source outside the documented table)")
+				}
+				continue
+			}
+			kinds[k]++
+			r.Count("tabled error sources", 1)
 			if len(s.Findings) > 0 {
 				r.Violation("O9.2", cn, p.Pos(s.Pos), "%s", findingsText(p, s))
-			} else {
-				r.OK("O9.2", cn, p.Pos(s.Pos), "error handled (source outside the documented table)")
+				continue
 			}
-			continue
-		}
-		kinds[k]++
-		r.Count("tabled error sources", 1)
-		if len(s.Findings) > 0 {
-			r.Violation("O9.2", cn, p.Pos(s.Pos), "%s", findingsText(p, s))
-			continue
-		}
-		if len(s.Sinks) == 0 {
-			r.Violation("O9.2", cn, p.Pos(s.Pos), "the error of this %s step is never handed to an error sender", k)
-			continue
-		}
-		var wrong []string
-		for _, sc := range s.Sinks {
-			ec, okC := senderConstructor(info, sc, ctors)
-			switch {
-			case !okC:
-				wrong = append(wrong, fmt.Sprintf("sender at %s is not built by a constant (status, code) constructor", p.Pos(sc.Pos())))
-			case ec != want[k]:
-				wrong = append(wrong, fmt.Sprintf("answers %d/%q at %s, documented %d/%q", ec.Status, ec.Code, p.Pos(sc.Pos()), want[k].Status, want[k].Code))
+			if len(s.Sinks) == 0 {
+				r.Violation("O9.2", cn, p.Pos(s.Pos), "the error of this %s step is never handed to an error sender", k)
+				continue
 			}
+			var wrong []string
+			for _, sc := range s.Sinks {
+				ec, okC := senderConstructor(tinfo, sc, ctors)
+				switch {
+				case !okC:
+					wrong = append(wrong, fmt.Sprintf("sender at %s is not built by a constant (status, code) constructor", p.Pos(sc.Pos())))
+				case ec != want[k]:
+					wrong = append(wrong, fmt.Sprintf("answers %d/%q at %s, documented %d/%q", ec.Status, ec.Code, p.Pos(sc.Pos()), want[k].Status, want[k].Code))
+				}
+			}
+			r.Check(len(wrong) == 0, "O9.2", cn, p.Pos(s.Pos), fmt.Sprintf("%s error ⇒ %d/%s, then return", k, want[k].Status, want[k].Code), strings.Join(wrong, "; "))
 		}
-		r.Check(len(wrong) == 0, "O9.2", cn, p.Pos(s.Pos), fmt.Sprintf("%s error ⇒ %d/%s, then return", k, want[k].Status, want[k].Code), strings.Join(wrong, "; "))
 	}
-	r.Floor("tabled error sources", 6)
+	tableFor(hu, w)
+	// error sources inside helpers that answer on the handler's behalf (a decode step moved into a helper, say)
+	var chs []*types.Func
+	for fn := range condHelpers {
+		chs = append(chs, fn)
+	}
+	sort.Slice(chs, func(i, j int) bool { return chs[i].FullName() < chs[j].FullName() })
+	for _, fn := range chs {
+		tableFor(condHelpers[fn].Unit, condHelpers[fn].W)
+	}
+	r.Floor("tabled error sources", 4) // one per kind at least; a decode step shared by both modes through a helper is one site
 	for _, k := range []string{"body", "decode", "prove", "encode"} {
 		if kinds[k] == 0 {
 			r.Violation("O9.2", hu.Name+": "+k+" step", p.Pos(hu.Node.Pos()), "the handler has no %s step with a checked error (expected io.ReadAll / json.Unmarshal / prover / json.Marshal)", k)
@@ -280,6 +293,9 @@ func checkC09(p *core.Program, r *core.Report) {
 		}
 		return true
 	})
+	// the decoded bytes are the whole body
+	r.Count("request documents decoded", checkWholeDocument(p, r, "O9.2", hu.Name, hfn))
+	r.Floor("request documents decoded", 1)
 	// method check: cond r.Method != "POST" → WriteHeader(405) and return, before any body read
 	checkMethodGate(p, r, hu, g, w)
 	// 200 path
@@ -796,7 +812,7 @@ func checkGuardCoversUseRule(p *core.Program, r *core.Report, ps *types.Named, r
 	if ps == nil {
 		return
 	}
-	eng := tf.NewEngine(core.InRepo, 0) // the prover is analysed without inlining the validator
+	eng := tf.NewEngine(core.InRepo, 0)  // the prover is analysed without inlining the validator
 	veng := tf.NewEngine(core.InRepo, 3) // the validator may use small in-repo helpers
 	for _, fn := range p.RepoFuncs() {
 		if fn.Signature.Recv() == nil || namedOf(fn.Signature.Recv().Type()) != ps || fn.Signature.Results().Len() != 2 || fn.Signature.Params().Len() != 1 {
@@ -969,56 +985,242 @@ func checkMarshalArgs(p *core.Program, r *core.Report, ix *funcIndex) {
 // checkStatusOnce decides the exactly-one-status typestate of the handler (O9.1 / O20.4) and returns the response helpers
 // it recognised and the handler's CFG.
 func checkStatusOnce(p *core.Program, r *core.Report, ix *funcIndex, hu flow.FuncUnit, w *types.Var, rule string) (map[*types.Func]bool, *flow.Graph) {
-	info := hu.Pkg.TypesInfo
-	// helpers: in-repo functions to which the handler hands its ResponseWriter; each must set the header exactly once on
-	// all its paths before writing
-	helpers := map[*types.Func]bool{}
-	called := map[*types.Func]bool{}
-	ast.Inspect(hu.Node, func(n ast.Node) bool {
+	helpers, _, g := checkStatusOnceX(p, r, ix, hu, w, rule)
+	return helpers, g
+}
+
+// condResponder summarises a response helper with a boolean result that tells whether it answered: the number of statuses it
+// sets on the exits returning true and on the exits returning false.
+type condResponder struct {
+	Unit     flow.FuncUnit
+	W        *types.Var
+	EvT, EvF int
+}
+
+// calleesWithWriter lists the in-repo functions to which the body of u hands the response writer w.
+func calleesWithWriter(info *types.Info, u flow.FuncUnit, w *types.Var) []*types.Func {
+	seen := map[*types.Func]bool{}
+	var out []*types.Func
+	ast.Inspect(u.Node, func(n ast.Node) bool {
 		if call, ok := n.(*ast.CallExpr); ok {
 			if fn, _ := typeutil.Callee(info, call).(*types.Func); fn != nil && inRepoObj(fn) {
 				for _, a := range call.Args {
-					if identVar(info, a) == w {
-						called[fn.Origin()] = true
+					if identVar(info, a) == w && !seen[fn.Origin()] {
+						seen[fn.Origin()] = true
+						out = append(out, fn.Origin())
 					}
 				}
 			}
 		}
 		return true
 	})
-	for fn := range called {
+	sort.Slice(out, func(i, j int) bool { return out[i].FullName() < out[j].FullName() })
+	return out
+}
+
+// condBranch builds the branch callback of CountOnPathsCond for the conditional responders known so far: the condition is
+// h(…w…), !h(…w…), or a boolean variable assigned from such a call by the statement just before it.
+func condBranch(info *types.Info, conds map[*types.Func]*condResponder) func(cond ast.Expr, prev ast.Node) (int, int, bool, bool) {
+	callOf := func(e ast.Expr) *condResponder {
+		call, ok := ast.Unparen(e).(*ast.CallExpr)
+		if !ok {
+			return nil
+		}
+		fn, _ := typeutil.Callee(info, call).(*types.Func)
+		if fn == nil {
+			return nil
+		}
+		return conds[fn.Origin()]
+	}
+	return func(cond ast.Expr, prev ast.Node) (int, int, bool, bool) {
+		neg := false
+		e := ast.Unparen(cond)
+		for {
+			u, ok := e.(*ast.UnaryExpr)
+			if !ok || u.Op != token.NOT {
+				break
+			}
+			neg = !neg
+			e = ast.Unparen(u.X)
+		}
+		cr := callOf(e)
+		consumed := false
+		if cr == nil {
+			// ok := h(…); if ok
+			if id, isId := e.(*ast.Ident); isId && prev != nil {
+				if as, isAs := prev.(*ast.AssignStmt); isAs && len(as.Lhs) == 1 && len(as.Rhs) == 1 {
+					if identVar(info, as.Lhs[0]) != nil && identVar(info, as.Lhs[0]) == identVar(info, id) {
+						cr = callOf(as.Rhs[0])
+						consumed = cr != nil
+					}
+				}
+			}
+		}
+		if cr == nil {
+			return 0, 0, false, false
+		}
+		if neg {
+			return cr.EvF, cr.EvT, consumed, true
+		}
+		return cr.EvT, cr.EvF, consumed, true
+	}
+}
+
+// condCallsBranchedOn: every call of a conditional responder in u is in one of the positions condBranch understands.
+func condCallsBranchedOn(info *types.Info, u flow.FuncUnit, conds map[*types.Func]*condResponder) []token.Pos {
+	okCalls := map[*ast.CallExpr]bool{}
+	isCond := func(e ast.Expr) *ast.CallExpr {
+		e = ast.Unparen(e)
+		for {
+			ue, ok := e.(*ast.UnaryExpr)
+			if !ok || ue.Op != token.NOT {
+				break
+			}
+			e = ast.Unparen(ue.X)
+		}
+		c, _ := e.(*ast.CallExpr)
+		return c
+	}
+	ast.Inspect(u.Node, func(n ast.Node) bool {
+		switch x := n.(type) {
+		case *ast.IfStmt:
+			if c := isCond(x.Cond); c != nil {
+				okCalls[c] = true
+			}
+		case *ast.BlockStmt:
+			for i := 0; i+1 < len(x.List); i++ {
+				as, ok := x.List[i].(*ast.AssignStmt)
+				ifs, ok2 := x.List[i+1].(*ast.IfStmt)
+				if !ok || !ok2 || len(as.Lhs) != 1 || len(as.Rhs) != 1 || ifs.Init != nil {
+					continue
+				}
+				e := ast.Unparen(ifs.Cond)
+				for {
+					ue, isU := e.(*ast.UnaryExpr)
+					if !isU || ue.Op != token.NOT {
+						break
+					}
+					e = ast.Unparen(ue.X)
+				}
+				if id, isId := e.(*ast.Ident); isId && identVar(info, id) != nil && identVar(info, id) == identVar(info, as.Lhs[0]) {
+					if c, isCall := ast.Unparen(as.Rhs[0]).(*ast.CallExpr); isCall {
+						okCalls[c] = true
+					}
+				}
+			}
+		}
+		return true
+	})
+	var bad []token.Pos
+	ast.Inspect(u.Node, func(n ast.Node) bool {
+		if call, ok := n.(*ast.CallExpr); ok && !okCalls[call] {
+			if fn, _ := typeutil.Callee(info, call).(*types.Func); fn != nil && conds[fn.Origin()] != nil {
+				bad = append(bad, call.Pos())
+			}
+		}
+		return true
+	})
+	return bad
+}
+
+// checkStatusOnceX decides the exactly-one-status typestate of the handler interprocedurally: functions that receive the
+// response writer are summarised bottom-up as unconditional responders (exactly one status on every path, then writes) or
+// conditional responders (a boolean result; one count on the exits returning true, another on those returning false).
+func checkStatusOnceX(p *core.Program, r *core.Report, ix *funcIndex, hu flow.FuncUnit, w *types.Var, rule string) (map[*types.Func]bool, map[*types.Func]*condResponder, *flow.Graph) {
+	info := hu.Pkg.TypesInfo
+	helpers := map[*types.Func]bool{}
+	conds := map[*types.Func]*condResponder{}
+	state := map[*types.Func]int{} // 1 = in progress, 2 = done
+	var summarize func(fn *types.Func)
+	summarize = func(fn *types.Func) {
+		if state[fn] != 0 {
+			return
+		}
+		state[fn] = 1
+		defer func() { state[fn] = 2 }()
 		u, ok := ix.decls[fn]
 		if !ok {
 			r.Violation(rule, hu.Name+": response writer handed to "+fn.FullName(), p.Pos(hu.Node.Pos()), "the ResponseWriter is passed to a function whose body is not available: its effect on the status line is unknown")
-			continue
+			return
 		}
 		hw := respWriterParam(u)
 		if hw == nil {
-			continue
+			return
+		}
+		uinfo := u.Pkg.TypesInfo
+		for _, c := range calleesWithWriter(uinfo, u, hw) {
+			summarize(c)
 		}
 		g := flow.NewGraph(u)
-		exits, bad := g.CountOnPaths(headerClassifier(u.Pkg.TypesInfo, hw, nil))
+		exits, bad := g.CountOnPathsCond(headerClassifier(uinfo, hw, helpers), condBranch(uinfo, conds))
+		for _, at := range condCallsBranchedOn(uinfo, u, conds) {
+			bad = append(bad, at)
+		}
+		r.AnalysedFn(u.Name)
 		once := len(bad) == 0 && len(exits) > 0
 		for _, e := range exits {
 			if e.Mask != 2 {
 				once = false
 			}
 		}
-		r.AnalysedFn(u.Name)
 		if once {
 			helpers[fn] = true
 			r.OK(rule, u.Name+": sets the status exactly once before writing", p.Pos(u.Node.Pos()), "every path: one WriteHeader, then writes")
-		} else {
-			var ms []string
-			for _, e := range exits {
-				ms = append(ms, fmt.Sprintf("exit %s: counts %03b", p.Pos(e.Pos), e.Mask))
-			}
-			r.Violation(rule, u.Name+": sets the status exactly once before writing", p.Pos(u.Node.Pos()), "response helper does not set the status exactly once on every path (or writes before it): %s; writes-before-header at %v", strings.Join(ms, ", "), posList(p, bad))
+			return
 		}
+		// conditional responder: single bool result, constant at every exit, uniform count per constant
+		if sig, ok := fn.Type().(*types.Signature); ok && sig.Results().Len() == 1 && len(bad) == 0 && len(exits) > 0 {
+			if b, isB := sig.Results().At(0).Type().Underlying().(*types.Basic); isB && b.Kind() == types.Bool {
+				cnt := map[bool]CountOf{}
+				okC := true
+				for _, e := range exits {
+					ret, _ := e.Node.(*ast.ReturnStmt)
+					if ret == nil || len(ret.Results) != 1 {
+						okC = false
+						break
+					}
+					tv := uinfo.Types[ret.Results[0]]
+					if tv.Value == nil || tv.Value.Kind() != constant.Bool {
+						okC = false
+						break
+					}
+					k := -1
+					switch e.Mask {
+					case 1:
+						k = 0
+					case 2:
+						k = 1
+					}
+					v := constant.BoolVal(tv.Value)
+					if k < 0 {
+						okC = false
+						break
+					}
+					if prev, seen := cnt[v]; seen && prev.N != k {
+						okC = false
+						break
+					}
+					cnt[v] = CountOf{k, true}
+				}
+				if okC && len(cnt) == 2 {
+					conds[fn] = &condResponder{Unit: u, W: hw, EvT: cnt[true].N, EvF: cnt[false].N}
+					r.OK(rule, u.Name+": conditional responder", p.Pos(u.Node.Pos()), "returns true after setting %d status(es) and false after %d, on every path; callers must branch on the result", cnt[true].N, cnt[false].N)
+					return
+				}
+			}
+		}
+		var ms []string
+		for _, e := range exits {
+			ms = append(ms, fmt.Sprintf("exit %s: counts %03b", p.Pos(e.Pos), e.Mask))
+		}
+		r.Violation(rule, u.Name+": sets the status exactly once before writing", p.Pos(u.Node.Pos()), "response helper neither sets the status exactly once on every path nor tells its caller through a constant boolean result whether it did (or writes before it): %s; writes-before-header / unbranched conditional calls at %v", strings.Join(ms, ", "), posList(p, bad))
 	}
-	r.Count("response helpers", len(helpers))
+	for _, c := range calleesWithWriter(info, hu, w) {
+		summarize(c)
+	}
+	r.Count("response helpers", len(helpers)+len(conds))
 	g := flow.NewGraph(hu)
-	exits, bad := g.CountOnPaths(headerClassifier(info, w, helpers))
+	exits, bad := g.CountOnPathsCond(headerClassifier(info, w, helpers), condBranch(info, conds))
 	okAll := len(bad) == 0 && len(exits) > 0
 	var ms []string
 	for _, e := range exits {
@@ -1037,8 +1239,17 @@ func checkStatusOnce(p *core.Program, r *core.Report, ix *funcIndex, hu flow.Fun
 	for _, b := range bad {
 		ms = append(ms, "body written before the status at "+p.Pos(b))
 	}
+	for _, at := range condCallsBranchedOn(info, hu, conds) {
+		okAll = false
+		ms = append(ms, "a helper that answers only on some paths is called at "+p.Pos(at)+" without branching on its result")
+	}
 	r.Check(okAll, rule, hu.Name+": exactly one status per request", p.Pos(hu.Node.Pos()), fmt.Sprintf("%d exits, each after exactly one WriteHeader", len(exits)), strings.Join(ms, "; "))
 	r.Count("handler exits", len(exits))
+	return helpers, conds, g
+}
 
-	return helpers, g
+// CountOf is a status count with a presence flag.
+type CountOf struct {
+	N  int
+	Ok bool
 }
